@@ -258,6 +258,7 @@ class Program:
         self.impls = []      # (trait or None, ty, [(mname, params[(x,ty)], ret, body)], gens)
         self.fns = []        # (name, gens[(n, [bounds])], params[(x,ty)], ret, body)
         self.header = ""     # package / import lines
+        self.sem_only = []   # Programs whose functions / impls exist only for the meaning (e.g. an imported package written by hand)
 
     def struct(self, name, fields, gens=(), derives=()):
         self.structs.append((name, list(gens), list(fields), list(derives)))
@@ -275,7 +276,7 @@ class Program:
         self.fns.append((name, [(g if isinstance(g, tuple) else (g, [])) for g in gens], list(params), ret, body))
 
     # ---- semantic record for GomlSem
-    def sem_record(self):
+    def sem_record(self, need_main=True):
         fns = {}
         impls = {"·|·": {"·": {"fn": "·", "targs": []}}}
         for name, gens, params, ret, body in self.fns:
@@ -288,7 +289,12 @@ class Program:
                     fname = f"impl#{trait}#{tykey(ty)}#{mname}"
                     impls.setdefault(trait + "|" + tykey(ty), {})[mname] = {"fn": fname, "targs": []}
                 fns[fname] = {"gens": list(gens), "params": [x for x, _ in params], "body": sem_expr(body)}
-        if "main" not in fns:
+        for other in self.sem_only:
+            o = other.sem_record(need_main=False)
+            fns.update(o["fns"])
+            for k, v in o["impls"].items():
+                impls.setdefault(k, {}).update(v)
+        if need_main and "main" not in fns:
             raise ValueError("program without main")
         return {"name": self.name, "fns": fns, "impls": impls}
 
